@@ -24,7 +24,7 @@ SPEC = {
              "not Identity"),
     "boundscheck": {"quick": False, "thorough": True},
     "case_timeout": 240.0,
-    "deciding_monitors": ["Linop.apply"],
+    "deciding_monitors": ["Linop.apply", "in:layout:F", "in:layout:strided", "in:complex64"],
     "assumptions": ["Toeplitz accuracy classes taken from the statement: 3 % at the default "
                     "(1.25, 4), 0.3 % at oversamp 2; other (oversamp, width) pairs are run "
                     "with toeplitz off only", "CPU/numpy backend"],
